@@ -2,8 +2,11 @@
 import json, os, subprocess, sys, time, shutil, hashlib
 
 VERIF = "/verif"
-REPO = "/repo"
-OUT = os.path.join(VERIF, "out")
+# VERIF_REPO: run the checks against another checkout (used to try seeded changes in a scratch
+# worktree without touching /repo); scratch output and evidence then go to a separate directory
+REPO = os.environ.get("VERIF_REPO", "/repo")
+ALT = REPO != "/repo"
+OUT = os.path.join(VERIF, "out") if not ALT else os.path.join(VERIF, "out", "alt-" + hashlib.md5(REPO.encode()).hexdigest()[:8])
 EXIT_OK, EXIT_VIOLATION, EXIT_INCONCLUSIVE = 0, 1, 3
 
 GOENV = dict(os.environ, GOFLAGS="-mod=mod", GOPROXY="off", GOSUMDB="off", GOTOOLCHAIN="local")
@@ -43,9 +46,10 @@ def load_findings():
 
 
 def write_evidence(prop, tier, seed, level, coverage, assumptions, wall_s, violations):
-    os.makedirs(os.path.join(VERIF, "evidence"), exist_ok=True)
+    evdir = os.path.join(VERIF, "evidence") if not ALT else os.path.join(OUT, "evidence")
+    os.makedirs(evdir, exist_ok=True)
     ev = dict(property_id=prop, tier=tier, seed=seed, level=level, coverage=coverage, assumptions=assumptions, wall_s=round(wall_s, 2), violations=violations)
-    p = os.path.join(VERIF, "evidence", prop + ".json")
+    p = os.path.join(evdir, prop + ".json")
     with open(p, "w") as f:
         json.dump(ev, f, indent=1, sort_keys=False)
     return p
